@@ -6,6 +6,7 @@ import (
 	"go/token"
 	"go/types"
 	"sort"
+	"strconv"
 	"strings"
 
 	"golang.org/x/tools/go/ssa"
@@ -29,10 +30,66 @@ func runeConstsComparedB(fn *ssa.Function, pred func(v ssa.Value) bool, bind map
 		if k, ok := constIntOf(v); ok {
 			return k, true
 		}
+		if cst, ok := v.(*ssa.Const); ok && cst.Value != nil && cst.Value.Kind() == constant.Bool {
+			if constant.BoolVal(cst.Value) {
+				return 1, true
+			}
+			return 0, true
+		}
 		if k, ok := bind[v]; ok {
 			return k, true
 		}
 		return 0, false
+	}
+	// a flag parameter that is a constant at this call site (`quotedState(l, '`', false)`) switches comparisons off:
+	// the block is dead under the flag, or the comparison is at once and-ed with the flag
+	flagOff := func(b *ssa.BinOp) bool {
+		for _, fc := range factsAt(b.Block()) {
+			if _, isParam := fc.cond.(*ssa.Parameter); isParam {
+				if k, ok := konst(fc.cond); ok && (k != 0) != fc.truth {
+					return true
+				}
+			}
+		}
+		if b.Op != token.EQL || b.Referrers() == nil {
+			return false
+		}
+		for _, r := range *b.Referrers() {
+			iff, ok := r.(*ssa.If)
+			if !ok || iff.Block() != b.Block() {
+				continue
+			}
+			t := iff.Block().Succs[0]
+			if len(t.Instrs) == 1 {
+				if g, ok := t.Instrs[0].(*ssa.If); ok {
+					if _, isParam := g.Cond.(*ssa.Parameter); isParam {
+						if k, ok := konst(g.Cond); ok && k == 0 {
+							return true
+						}
+					}
+				}
+				// the value form of `cmp && flag`: the right-hand block only jumps to the join, whose phi takes the flag from it
+				if _, ok := t.Instrs[0].(*ssa.Jump); ok && len(t.Succs) == 1 {
+					d := t.Succs[0]
+					for _, din := range d.Instrs {
+						ph, ok := din.(*ssa.Phi)
+						if !ok {
+							break
+						}
+						for i, pred := range d.Preds {
+							if pred == t {
+								if _, isParam := ph.Edges[i].(*ssa.Parameter); isParam {
+									if k, ok := konst(ph.Edges[i]); ok && k == 0 {
+										return true
+									}
+								}
+							}
+						}
+					}
+				}
+			}
+		}
+		return false
 	}
 	allInstrs(fn, func(_ *ssa.BasicBlock, in ssa.Instruction) {
 		if call, isCall := in.(ssa.CallInstruction); isCall && depth < 3 {
@@ -62,7 +119,7 @@ func runeConstsComparedB(fn *ssa.Function, pred func(v ssa.Value) bool, bind map
 				afterBackslash = true
 			}
 		}
-		if afterBackslash {
+		if afterBackslash || flagOff(b) {
 			return
 		}
 		for _, pr := range [][2]ssa.Value{{b.X, b.Y}, {b.Y, b.X}} {
@@ -622,6 +679,15 @@ func ruleC16LexerTokenizer(c *Ctx) {
 		// the tokenizer compares with eofChar (0x100) as well: the end of input, handled by (e) on the lexer side
 		tk := cmpConsts(tokLine, map[int64]bool{0x100: true})
 		lx := cmpConsts(line, map[int64]bool{0xFFFD: true, 0: true, 3: true})
+		if len(lx) == 0 {
+			// search form: the state looks for its terminator with strings.Index — the bytes of the (constant) needle
+			for _, nd := range searchNeedles(line) {
+				for i := 0; i < len(nd); i++ {
+					lx = append(lx, int64(nd[i]))
+				}
+			}
+			sort.Slice(lx, func(i, j int) bool { return lx[i] < lx[j] })
+		}
 		c.Check(fmt.Sprint(tk) == fmt.Sprint(lx), "c16.lexer-tokenizer", "one-line-comment-end", c.P.Pos(line.Pos()), fmt.Sprintf("both end a one-line comment on %v", tk), fmt.Sprintf("the lexer treats the characters %v as special inside a one-line comment, the tokenizer %v: with `# ...\\r AND name = $1` the lexer substitutes a placeholder the parser still sees as comment text, and a backslash in a comment hides the line end", lx, tk))
 	}
 	// (b) and (c): arms of rawState
@@ -692,6 +758,11 @@ func ruleC16LexerTokenizer(c *Ctx) {
 				ok = false
 			}
 		})
+		if n == 0 && len(searchNeedles(f)) > 0 {
+			// search form: no rune is decoded at all; a byte search for a constant terminator cannot take an invalid
+			// UTF-8 byte for the end of the input
+			n = 1
+		}
 		c.Check(ok && n > 0, "c16.lexer-tokenizer", "end-of-input/"+f.Name(), c.P.Pos(f.Pos()), "the end of input is a zero-width decode", "the state ends the statement whenever a decode error has a width other than 3: an invalid UTF-8 byte (width 1) silently truncates the statement, e.g. drops a trailing WHERE clause")
 	}
 	// (f) bounded placeholder number
@@ -783,4 +854,42 @@ func ruleC16CommandImmutable(c *Ctx) {
 	if n == 0 {
 		c.Unknown("c16.command-immutable", "Command", "-", "anchor lost: no method of the sanitizer's Command")
 	}
+}
+
+// searchNeedles: the constant needles f (or a helper it hands them to) searches its input for with the strings package
+// (Index, IndexByte, IndexRune, Cut, Contains) — empty when f decodes runes itself.
+func searchNeedles(f *ssa.Function) []string {
+	var out []string
+	decodes := false
+	deepInstrs(f, func(_ *ssa.Function, tb *TB, _ *ssa.BasicBlock, in ssa.Instruction) {
+		call, ok := in.(*ssa.Call)
+		if !ok {
+			return
+		}
+		name := calleeName(call.Common())
+		if strings.HasSuffix(name, "DecodeRuneInString") {
+			decodes = true
+		}
+		switch name {
+		case "strings.Index", "strings.IndexByte", "strings.IndexRune", "strings.Cut", "strings.Contains":
+		default:
+			return
+		}
+		if len(call.Call.Args) < 2 {
+			return
+		}
+		t := tb.Of(call.Call.Args[1])
+		if t.Op != "const" {
+			return
+		}
+		if u, err := strconv.Unquote(t.Name); err == nil {
+			out = append(out, u)
+		} else if k, err := strconv.ParseInt(t.Name, 10, 32); err == nil {
+			out = append(out, string(rune(k)))
+		}
+	})
+	if decodes {
+		return nil
+	}
+	return out
 }
